@@ -280,6 +280,16 @@ pub fn gen(tier: &str, rng: &mut Rng, out: &mut Vec<String>) {
     ] {
         out.push(format!("checked {}", v));
     }
+    // dense sweep of one period of the fast exponential (the polynomial on (-1, 0] in base-2 units, see
+    // theorem fastexp_reduction): the measured relative error appears as the err<=… tag buckets
+    let sweep = if tier == "thorough" { 8192 } else { 512 };
+    for j in 0..sweep {
+        let x = -std::f64::consts::LN_2 * (j as f64 + 0.5) / sweep as f64;
+        out.push(format!("fexp {}", fe(x)));
+        if j % 8 == 0 {
+            out.push(format!("fexp {}", fe(x - 37.0 * std::f64::consts::LN_2)));
+        }
+    }
     for i in 0..n {
         let line = match i % 20 {
             0..=3 => {
